@@ -19,8 +19,10 @@ package c16
 
 import (
 	"bytes"
+	"errors"
 	"fmt"
 	"go/ast"
+	"go/format"
 	"go/parser"
 	"go/token"
 	"io/ioutil"
@@ -36,6 +38,7 @@ import (
 	"github.com/dave/dst/decorator/resolver/guess"
 
 	"verifsim/core"
+	"verifsim/corpus"
 	"verifsim/dump"
 	"verifsim/edits"
 	"verifsim/faults"
@@ -104,12 +107,30 @@ const (
 )
 
 type pipeSpec struct {
-	kind   int
-	src    string
-	script []edits.Edit
-	alias  map[string]string
-	reps   int
-	extras bool
+	kind    int
+	src     string
+	script  []edits.Edit
+	alias   map[string]string
+	reps    int
+	extras  bool
+	split   bool // plain: RestoreFile, a decision point, then format.Node (instead of one Fprint)
+	sameAst bool // managed: every repetition decorates the SAME *ast.File with a fresh Decorator
+	big     string
+}
+
+// bigSources are the long (>= 600 lines) corpus files that parse cleanly: line tables, fragment
+// lists and maps grow past the sizes small generated files ever reach.
+var bigSources []corpus.File
+
+func init() {
+	for _, f := range corpus.Files() {
+		if strings.Count(f.Src, "\n") < 600 {
+			continue
+		}
+		if _, err := parser.ParseFile(token.NewFileSet(), "", f.Src, parser.ParseComments); err == nil {
+			bigSources = append(bigSources, f)
+		}
+	}
 }
 
 type workload struct {
@@ -141,22 +162,41 @@ func errClass(err error) string {
 	if faults.IsInjected(err) {
 		return "injected"
 	}
+	// Which of several unresolvable packages is named first depends on Go's map iteration order
+	// inside updateImports; C16 speaks of trees and bytes, so such errors are compared by class.
+	if errors.Is(err, resolver.ErrPackageNotFound) || errors.Is(err, faults.ErrStubNotFound) {
+		return "package-not-found"
+	}
 	return err.Error()
 }
 
 // execPipe runs one pipeline (all its repetitions) and stamps the results with pipe and
 // repetition numbers. y is the decision-point callback (nil in the sequential reference).
 func execPipe(pidx int, p pipeSpec, e env, y func(string), res *[]opResult) {
+	var shared *parsed
+	if p.sameAst && p.kind == pipeManagedDecorate {
+		fset := token.NewFileSet()
+		af, err := parser.ParseFile(fset, "w.go", p.src, parser.ParseComments)
+		if err != nil {
+			panic("harness: source does not parse: " + err.Error())
+		}
+		shared = &parsed{fset, af}
+	}
 	for rep := 0; rep < p.reps; rep++ {
 		from := len(*res)
-		execOnce(p, e, y, res)
+		execOnce(p, e, y, res, shared)
 		for i := from; i < len(*res); i++ {
 			(*res)[i].Pipe, (*res)[i].Rep = pidx, rep
 		}
 	}
 }
 
-func execOnce(p pipeSpec, e env, y func(string), out *[]opResult) {
+type parsed struct {
+	fset *token.FileSet
+	af   *ast.File
+}
+
+func execOnce(p pipeSpec, e env, y func(string), out *[]opResult, shared *parsed) {
 	yield := func(site string) {
 		if y != nil {
 			y(site)
@@ -169,10 +209,25 @@ func execOnce(p pipeSpec, e env, y func(string), out *[]opResult) {
 			*out = append(*out, opResult{Op: "parse", Err: errClass(err)})
 			return
 		}
-		*out = append(*out, opResult{Op: "parse", Out: dump.String(f, dump.Options{})})
+		if p.big != "" {
+			*out = append(*out, opResult{Op: "parse"}) // long files are compared by their printed bytes only
+		} else {
+			*out = append(*out, opResult{Op: "parse", Out: dump.String(f, dump.Options{})})
+		}
 		yield("op:print")
 		var buf bytes.Buffer
-		err = decorator.Fprint(&buf, f)
+		if p.split {
+			// the two halves of Fprint as a caller may run them: restore now, print later
+			fset, af, rerr := decorator.RestoreFile(f)
+			if rerr != nil {
+				*out = append(*out, opResult{Op: "print", Err: errClass(rerr)})
+				return
+			}
+			yield("op:print-restored")
+			err = format.Node(&buf, fset, af)
+		} else {
+			err = decorator.Fprint(&buf, f)
+		}
 		*out = append(*out, opResult{Op: "print", Out: buf.String(), Err: errClass(err)})
 		return
 	}
@@ -182,7 +237,10 @@ func execOnce(p pipeSpec, e env, y func(string), out *[]opResult) {
 	dec := decorator.NewDecoratorWithImports(fset, LocalPath, iw)
 	var f *dst.File
 	var err error
-	if p.kind == pipeManagedDecorate {
+	if p.kind == pipeManagedDecorate && shared != nil {
+		dec = decorator.NewDecoratorWithImports(shared.fset, LocalPath, iw)
+		f, err = dec.DecorateFile(shared.af)
+	} else if p.kind == pipeManagedDecorate {
 		var af *ast.File
 		af, err = parser.ParseFile(fset, "w.go", p.src, parser.ParseComments)
 		if err != nil {
@@ -228,7 +286,13 @@ func drawPipe(run *core.Run, conflicts bool) pipeSpec {
 	p := pipeSpec{kind: t.Draw(numPipeKinds), reps: 1 + t.Draw(2), extras: t.Bool(1, 8)}
 	sp := gen.Source(t, gen.Options{MaxImports: 5, MaxDecls: 3, AllowCgo: true, AllowDot: t.Bool(1, 16), Conflicts: conflicts})
 	p.src = sp.Src
-	if p.kind != pipePlain {
+	p.split = t.Bool(1, 3)
+	p.sameAst = t.Bool(1, 3)
+	if len(bigSources) > 0 && t.Bool(1, 14) {
+		b := bigSources[t.Draw(len(bigSources))]
+		p.src, p.big, p.reps, p.kind = b.Src, b.Name, 1, pipePlain
+	}
+	if p.kind != pipePlain && p.big == "" {
 		p.script = edits.Script(t, 3, conflicts)
 		if t.Bool(1, 3) {
 			p.alias = map[string]string{}
@@ -413,7 +477,7 @@ func runScheduled(run *core.Run) {
 	run.Describe("scheduled: %d workers, shared ident resolver %s, shared name resolver %s, failing paths %v, equal sources=%v", nworkers, identKindNames[w.identKind], faults.KindName(w.nameKind), keys(w.failPaths), sameSrc)
 	for i, ps := range w.workers {
 		for j, p := range ps {
-			run.Describe("worker %d pipe %d kind=%d reps=%d extras=%v edits=%v alias=%v src=%d bytes hash %s", i, j, p.kind, p.reps, p.extras, p.script, p.alias, len(p.src), dump.HashString(p.src))
+			run.Describe("worker %d pipe %d kind=%d reps=%d extras=%v split=%v sameAst=%v big=%q edits=%v alias=%v src=%d bytes hash %s", i, j, p.kind, p.reps, p.extras, p.split, p.sameAst, p.big, p.script, p.alias, len(p.src), dump.HashString(p.src))
 		}
 	}
 
@@ -561,7 +625,9 @@ func runScheduled(run *core.Run) {
 				run.Fail("c16/isolation", a.Op+":"+dump.DiffField(b.Out, a.Out), "worker %d op %d (%s) differs from the same call made alone: %s", i, j, a.Op, dump.FirstDiff(b.Out, a.Out))
 				return
 			}
-			if a.Pkgs != b.Pkgs {
+			if a.Pkgs != b.Pkgs && a.Err == "" {
+				// (when the restore failed, the calls made before the failing one are a map-order
+				// dependent subset and say nothing)
 				run.Fail("c16/isolation", a.Op+":resolver-calls", "worker %d op %d (%s) asked the name resolver for %q, alone for %q", i, j, a.Op, a.Pkgs, b.Pkgs)
 				return
 			}
@@ -569,28 +635,45 @@ func runScheduled(run *core.Run) {
 	}
 	// ---- O3 (in schedule): repetitions of a pipeline inside a worker agree with each other
 	for i := range w.workers {
-		byRep := map[[2]int][]opResult{}
-		for _, r := range ws[i].res {
-			k := [2]int{r.Pipe, r.Rep}
-			byRep[k] = append(byRep[k], r)
+		if !repsAgree(run, ws[i].res, fmt.Sprintf("worker %d", i)) {
+			return
 		}
-		for k, rs := range byRep {
-			if k[1] == 0 {
-				continue
+	}
+}
+
+// repsAgree checks that every repetition of a pipeline produced what its first repetition did.
+func repsAgree(run *core.Run, res []opResult, who string) bool {
+	byRep := map[[2]int][]opResult{}
+	for _, r := range res {
+		k := [2]int{r.Pipe, r.Rep}
+		byRep[k] = append(byRep[k], r)
+	}
+	var ks [][2]int
+	for k := range byRep {
+		ks = append(ks, k)
+	}
+	sort.Slice(ks, func(i, j int) bool { return ks[i][0] < ks[j][0] || ks[i][0] == ks[j][0] && ks[i][1] < ks[j][1] })
+	for _, k := range ks {
+		if k[1] == 0 {
+			continue
+		}
+		rs, base := byRep[k], byRep[[2]int{k[0], 0}]
+		if len(base) != len(rs) {
+			run.Fail("c16/repeat", "op-count", "%s pipe %d: repetition %d performed %d operations, the first %d", who, k[0], k[1], len(rs), len(base))
+			return false
+		}
+		for o := range rs {
+			if rs[o].Op != base[o].Op || rs[o].Err != base[o].Err {
+				run.Fail("c16/repeat", rs[o].Op+":error", "%s pipe %d: repetition %d of %s on equal input: error %q, first time %q", who, k[0], k[1], rs[o].Op, rs[o].Err, base[o].Err)
+				return false
 			}
-			base := byRep[[2]int{k[0], 0}]
-			if len(base) != len(rs) {
-				run.Fail("c16/repeat", "op-count", "worker %d pipe %d: repetition %d performed %d operations, the first %d", i, k[0], k[1], len(rs), len(base))
-				return
-			}
-			for o := range rs {
-				if rs[o].Op != base[o].Op || rs[o].Out != base[o].Out || rs[o].Err != base[o].Err {
-					run.Fail("c16/repeat", rs[o].Op, "worker %d pipe %d: repetition %d of %s on equal input differs from the first", i, k[0], k[1], rs[o].Op)
-					return
-				}
+			if rs[o].Out != base[o].Out {
+				run.Fail("c16/repeat", rs[o].Op+":"+dump.DiffField(base[o].Out, rs[o].Out), "%s pipe %d: repetition %d of %s on equal input differs from the first: %s", who, k[0], k[1], rs[o].Op, dump.FirstDiff(base[o].Out, rs[o].Out))
+				return false
 			}
 		}
 	}
+	return true
 }
 
 func keys(m map[string]bool) []string {
@@ -619,7 +702,7 @@ func runRepeat(run *core.Run) {
 	// bias towards what map order can influence: several imports added at once, several of them
 	// with the same package name, several entries in Alias
 	extra := 2 + t.Draw(4)
-	conf := []int{7, 8, 9, 10, 11, 14, 15}
+	conf := gen.ConflictIdx
 	for i := 0; i < extra; i++ {
 		pk := gen.Pool[conf[t.Draw(len(conf))]]
 		p.script = append(p.script, edits.Edit{Kind: edits.AddUse, Path: pk.Path, Name: "Rep"})
@@ -636,6 +719,9 @@ func runRepeat(run *core.Run) {
 	}
 	p.extras = t.Bool(1, 3)
 	p.reps = 1
+	if p.sameAst {
+		p.reps = 2 // the same *ast.File through the same resolver instance, twice
+	}
 	identKind := t.Draw(numIdentKinds)
 	nameKind := []int{faults.KindGuessMap, faults.KindSimple, faults.KindHints, faults.KindGuess, faults.KindGobuild}[t.Draw(5)]
 	withDir := t.Bool(1, 4)
@@ -653,6 +739,9 @@ func runRepeat(run *core.Run) {
 		// the restored ast itself (positions included), through RestoreFile with a fresh FileSet
 		astDump := restoredAstDump(p, e)
 		run.Add("repetitions", 1)
+		if !repsAgree(run, res, fmt.Sprintf("repetition %d", rep)) {
+			return
+		}
 		if rep == 0 {
 			first, firstAst = res, astDump
 			run.Case("repeat:" + dump.HashString(fmt.Sprint(res)))
